@@ -974,6 +974,17 @@ func judgeReplay(rf *ReplayFile, txt string) (bool, string) {
 			result = strings.TrimPrefix(l, "VERIF-RESULT ")
 		}
 	}
+	{ // one mention per assertion id
+		seen := map[string]bool{}
+		var uniq []string
+		for _, f := range failed {
+			if !seen[f] {
+				seen[f] = true
+				uniq = append(uniq, f)
+			}
+		}
+		failed = uniq
+	}
 	crashed := ""
 	if result == "" {
 		for _, l := range strings.Split(txt, "\n") {
